@@ -483,10 +483,10 @@ func mapsStream(r *vh.Rng, n, reps int, cv *vh.Cases, sum *vh.Summary, idBase in
 			continue
 		}
 		cj["ties"] = ties
-		// binc with AsSymbols=1: the side encoder that produces out-of-band key bytes keeps one symbol table
-		// across the keys of a map, so the bytes of a key that contains a string in map-key position (an
-		// interface{} key holding a string, the field names of a struct key) depend on the iteration order
-		symAffected := format == "binc" && o["AsSymbols"] == 1 && kk.kk == "KKOob" && kk.name != "array"
+		// (since /repo 36f56b8 side encoders never write binc symbols: binc AsSymbols=1 with out-of-band keys is an
+		// ordinary case; a difference there is a violation of its own class)
+		symAffected := false
+		bincSyms := format == "binc" && o["AsSymbols"] == 1 && kk.kk == "KKOob"
 		{
 			ks := make([]string, nk)
 			for i, k := range keys {
@@ -498,9 +498,7 @@ func mapsStream(r *vh.Rng, n, reps int, cv *vh.Cases, sum *vh.Summary, idBase in
 		if kk.name == "iface-composite-mixed" {
 			tieClass = "none:mixed-composite-scalar-keys:" + format // reported per format (the context option differs)
 		}
-		if symAffected {
-			tieClass = "binc-symbols-oob-keys"
-		} else if ties > 0 {
+		if ties > 0 {
 			switch kk.kk {
 			case "KKOob":
 				tieClass = "oob-equal-encodings"
@@ -509,6 +507,9 @@ func mapsStream(r *vh.Rng, n, reps int, cv *vh.Cases, sum *vh.Summary, idBase in
 			default:
 				tieClass = "natural-tie"
 			}
+		}
+		if ties == 0 && bincSyms {
+			tieClass = "none:binc-symbols-oob-keys"
 		}
 		// all the ways of producing the bytes
 		var outs [][]byte
@@ -1028,7 +1029,7 @@ func nestedStream(r *vh.Rng, n, reps int, sum *vh.Summary) {
 		d := randNested(r, 3, &ctr)
 		cls := "canonical-nondeterministic:nested"
 		if format == "binc" && o["AsSymbols"] == 1 && d.hasIfaceStringKey() {
-			cls = "canonical-nondeterministic:binc-symbols-oob-keys"
+			cls = "canonical-nondeterministic:nested:binc-symbols-oob-keys"
 		}
 		var first []byte
 		for q := 0; q < reps+2; q++ {
@@ -1070,7 +1071,6 @@ func nestedStructStream(r *vh.Rng, n, reps int, sum *vh.Summary) {
 		format := vh.Formats[it%len(vh.Formats)]
 		o := vh.RandEncOpts(r, format)
 		o["Canonical"] = true
-		delete(o, "AsSymbols") // binc symbols in out-of-band keys are F08-3
 		delete(o, "StructToArray")
 		h := vh.NewHandle(format, o)
 		no, ni := r.PickInt(2, 4, 8, 8, 12), r.PickInt(1, 3, 8, 8, 12)
